@@ -425,6 +425,69 @@ func CheckC16(run *evid.Run) {
 				run.NonTrivial(shape + "/" + nc)
 			}
 		}
+		// sequences: a log that was already trimmed by a bounded merge is merged again (with the same
+		// source, i.e. an older snapshot of what it dropped, or with another replica)
+		if total >= 3 && i%2 == 0 {
+			n1 := 1 + rng.Intn(total-1)
+			c := rng.Intn(h.Replicas)
+			second := func(x *hx.Exec) *ipfslog.IPFSLog {
+				if c == a {
+					return src(x)
+				}
+				return x.Logs[c]
+			}
+			ref2 := exec()
+			var p1 any
+			func() {
+				defer func() { p1 = recover() }()
+				_, _ = ref2.Logs[a].Join(src(ref2), n1)
+				_, _ = ref2.Logs[a].Join(second(ref2), -1)
+			}()
+			if p1 == nil {
+				full2 := hx.Observe(ref2.Logs[a])
+				total2 := len(full2.Values)
+				tot2 := totalOrder(h.Order, full2.Set)
+				for n2 := 0; n2 <= total2+3; n2++ {
+					x := exec()
+					var pan any
+					var jerr error
+					func() {
+						defer func() { pan = recover() }()
+						_, _ = x.Logs[a].Join(src(x), n1)
+						_, jerr = x.Logs[a].Join(second(x), n2)
+					}()
+					run.Count("bounded_merges_of_trimmed_logs", 1)
+					d := det("sequence", true, "n_gt_total", n2 > total2, "order", h.Order)
+					wit := func() map[string]any {
+						m := histSample(h)
+						m["pair"] = fmt.Sprintf("r%d.Join(r%d, %d) then r%d.Join(r%d, %d); unbounded second merge gives %d values", a, b, n1, a, c, n2, total2)
+						return m
+					}
+					if pan != nil {
+						run.Violate("C16/panic", d, wit(), "second bounded merge Join(other, %d) of an already trimmed log panicked (merged linearisation has %d values): %v", n2, total2, pan)
+						continue
+					}
+					if jerr != nil {
+						continue
+					}
+					got := hx.Observe(x.Logs[a])
+					m2 := n2
+					if m2 > total2 {
+						m2 = total2
+					}
+					if len(got.Values) != m2 {
+						run.Violate("C16/count", d, wit(), "second bounded merge Join(other, %d): %d values, want min(n,total)=%d", n2, len(got.Values), m2)
+						continue
+					}
+					if tot2 && !model.EqualSeq(got.Values, full2.Values[total2-m2:]) {
+						run.Violate("C16/values", d, wit(), "second bounded merge Join(other, %d): values are not the tail of the unbounded linearisation", n2)
+					}
+					if n2 > 0 && n2 < total2 {
+						run.NonTrivial(shape + "/seq/" + fmt.Sprint(n1 < total/2))
+					}
+				}
+			}
+		}
 		run.Eval(1)
 		if i < 2 {
 			m := histSample(h)
